@@ -21,6 +21,14 @@ use quil_rs::program::Calibrations;
 use quil_rs::Program;
 use std::str::FromStr;
 
+/// `below(a)` with probability num/den, else `below(b)`
+macro_rules! biased {
+    ($rng:ident, $num:expr, $den:expr, $a:expr, $b:expr) => {{
+        let n = if $rng.chance($num, $den) { $a } else { $b };
+        $rng.below(n)
+    }};
+}
+
 /// Parameter alphabet (texts; parsed by the real expression parser).
 const PARAMS: [&str; 14] = [
     "1.0",
@@ -487,11 +495,6 @@ fn gate(name: &'static str, mods: &[GateModifier], params: &[usize], qubits: &[Q
 const D: GateModifier = GateModifier::Dagger;
 const C: GateModifier = GateModifier::Controlled;
 
-/// `below(a)` with probability num/den, else `below(b)`
-fn biased(rng: &mut Rng, num: u64, den: u64, a: u64, b: u64) -> u64 {
-    let n = if rng.chance(num, den) { a } else { b };
-    rng.below(n)
-}
 
 fn main() {
     main_with(run)
@@ -633,10 +636,10 @@ fn run(ctx: &mut Ctx) {
         let nq = nq.min(3);
         let np = if rng.chance(1, 2) { 0 } else { 1 + rng.below(2) as usize };
         CalSpec {
-            name: names[biased(&mut rng, 4, 5, 1, 2) as usize],
+            name: names[biased!(rng, 4, 5, 1, 2) as usize],
             mods: modsets[if rng.chance(2, 3) { 0 } else { rng.below(5) as usize }].to_vec(),
             params: (0..np).map(|_| rng.below(PARAMS.len() as u64) as usize).collect(),
-            qubits: (0..nq).map(|_| qpool[biased(&mut rng, 9, 10, 5, 7) as usize].clone()).collect(),
+            qubits: (0..nq).map(|_| qpool[biased!(rng, 9, 10, 5, 7) as usize].clone()).collect(),
             body,
         }
     };
@@ -654,7 +657,7 @@ fn run(ctx: &mut Ctx) {
                 c.body = body;
                 for q in c.qubits.iter_mut() {
                     if rng.chance(1, 2) {
-                        *q = qpool[biased(&mut rng, 9, 10, 5, 7) as usize].clone();
+                        *q = qpool[biased!(rng, 9, 10, 5, 7) as usize].clone();
                     }
                 }
                 for p in c.params.iter_mut() {
@@ -710,7 +713,7 @@ fn run(ctx: &mut Ctx) {
             let mut g = GateSpec { name: c.name, mods: c.mods.clone(), params: c.params.clone(), qubits: c.qubits.clone() };
             for q in g.qubits.iter_mut() {
                 if matches!(q, Q::V(_)) && rng.chance(4, 5) || rng.chance(1, 8) {
-                    *q = qpool[biased(&mut rng, 9, 10, 3, 7) as usize].clone();
+                    *q = qpool[biased!(rng, 9, 10, 3, 7) as usize].clone();
                 }
             }
             for p in g.params.iter_mut() {
@@ -738,8 +741,8 @@ fn run(ctx: &mut Ctx) {
     let mnames = [None, Some("m")];
     let mtargets = [None, Some("addr"), Some("other")];
     let rand_mcal = |rng: &mut Rng, body: u64| MCalSpec {
-        name: mnames[biased(&mut rng, 3, 4, 1, 2) as usize],
-        qubit: qpool[biased(&mut rng, 9, 10, 5, 7) as usize].clone(),
+        name: mnames[biased!(rng, 3, 4, 1, 2) as usize],
+        qubit: qpool[biased!(rng, 9, 10, 5, 7) as usize].clone(),
         target: mtargets[rng.below(3) as usize],
         body,
     };
@@ -764,8 +767,8 @@ fn run(ctx: &mut Ctx) {
         let mut queries = Vec::new();
         for _ in 0..8 {
             queries.push(MeasSpec {
-                name: mnames[biased(&mut rng, 3, 4, 1, 2) as usize],
-                qubit: qpool[biased(&mut rng, 9, 10, 4, 7) as usize].clone(),
+                name: mnames[biased!(rng, 3, 4, 1, 2) as usize],
+                qubit: qpool[biased!(rng, 9, 10, 4, 7) as usize].clone(),
                 target: if rng.chance(1, 2) { None } else { Some(("ro", rng.below(2))) },
             });
         }
